@@ -40,10 +40,10 @@ def run(v, tier, replay):
                 raise lib.Inconclusive("child %s timed out" % (j,))
             if rc != 0 and not any(e["ev"] == "done" for e in evs):
                 race = "WARNING: DATA RACE" in tail
-                if race and "/repo/" not in tail:
+                if race and lib.REPO_MARK not in tail:
                     raise lib.Inconclusive("data race inside the driver itself:\n" + tail[-1500:])
-                reason = ("data race: " + " | ".join([l.strip() for l in tail.split("\n") if "/repo/" in l][:3])) if race else ([l for l in tail.split("\n") if l.startswith("panic:") or "fatal error" in l] or ["exit %s" % rc])[0]
-                evs.append(dict(ev="crash", reason=reason[:400], stack=[l.strip() for l in tail.split("\n") if "/repo/" in l][:4], job=list(j)))
+                reason = ("data race: " + " | ".join([l.strip() for l in tail.split("\n") if lib.REPO_MARK in l][:3])) if race else ([l for l in tail.split("\n") if l.startswith("panic:") or "fatal error" in l] or ["exit %s" % rc])[0]
+                evs.append(dict(ev="crash", reason=reason[:400], stack=[l.strip() for l in tail.split("\n") if lib.REPO_MARK in l][:4], job=list(j)))
             events += [dict(e, seed=j[0]) for e in evs if e["ev"] in ("call", "leak", "crash")]
     tr = os.path.join(sd, "trace.ndjson")
     lib.write_ndjson(tr, events or [dict(ev="none")])
@@ -62,7 +62,7 @@ def run(v, tier, replay):
     for m in re.finditer(r'<<"MISMATCH", (\d+)>>', r.out):
         e = events[int(m.group(1)) - 1]
         if e["ev"] == "crash":
-            sig = "crash: %s | %s" % (e["reason"][:160], (e["stack"] or ["?"])[0].split(" ")[0].split("/repo/")[-1])
+            sig = "crash: %s | %s" % (e["reason"][:160], (e["stack"] or ["?"])[0].split(" ")[0].split(lib.REPO_MARK)[-1])
         elif e["ev"] == "leak":
             sig = "goroutine leak: %d goroutines of the tubes package alive after every muxer was stopped, e.g. %s" % (e["goroutines"], e["sample"][:80])
         else:
